@@ -156,7 +156,7 @@ func (g *Graph) BFS(bad map[int]bool) {
 // argument classes, the kinds of outputs and whether the state changed.
 func edgeClass(e Edge, changed bool) string {
 	parts := []string{fmt.Sprint(e.A["a"])}
-	for _, f := range []string{"m", "k", "mut", "beyond", "kind", "attr", "fill", "reuse", "v", "proto"} {
+	for _, f := range []string{"m", "k", "mut", "beyond", "kind", "attr", "fill", "reuse", "v", "proto", "proc", "from"} {
 		if v, ok := e.A[f]; ok {
 			parts = append(parts, f+"="+fmt.Sprint(v))
 		}
